@@ -143,6 +143,11 @@ def run(repo: Repo, rep: Report, tier: str) -> None:
     _hc2.report(repo, rep, "R09.6", _hc2.dataclass_fields_contract(repo), "mashumaro.core.meta.code.builder::CodeBuilder.dataclass_fields")
     from ..core import helper_contracts as _hc3
     _hc3.report(repo, rep, "R01.6", _hc3.type_param_collection_contract(repo), "mashumaro.core.meta.helpers::collect_type_params")
+    from ..core import siblings as _sib4
+    _sib4.check_special_primitive_mirror(repo, rep, "R11.10")
+    from . import c19 as _c19, c07 as _c07
+    _c19._hook_and_dispatch_contracts(repo, Only(rep, {"R19.8"}))
+    _c07._r07_8(repo, Only(rep, {"R07.8"}))
 
 # --------------------------------------------------------------------------- R01.2 sign domain
 def _r01_2(repo: Repo, rep: Report) -> None:
@@ -302,3 +307,9 @@ LEVEL_TEXT += _ADD3
 _ADD7 = ' R01.6: collect_type_params returns every type variable once (each insertion is guarded by a membership test), which type-parameter substitution for nested generic dataclasses depends on.'
 EXPLANATION += _ADD7
 LEVEL_TEXT += _ADD7
+_ADD17 = ' Borrowed: R11.10.'
+EXPLANATION += _ADD17
+LEVEL_TEXT += _ADD17
+_ADD21 = " Borrowed: R19.8 (nested dataclasses are packed through the value's own class), R07.8 (declaration order of constructor arguments)."
+EXPLANATION += _ADD21
+LEVEL_TEXT += _ADD21
